@@ -153,7 +153,7 @@ theorem C13_spoof_rejected (cd : Codec) (dom : List Nat) (σ : Srv) (m : Msg) (i
                 dsimp only
                 unfold hFragTest
                 simp only [hv, Res.bind_ok]
-                rcases errAns_cases cd m dom.length 114 1 (σ.sess sid).down 1 (vErrName .badIp) with h | h
+                rcases errAns_cases cd m dom.length 114 1 (downOf σ (some sid)) 1 (vErrName .badIp) with h | h
                 · exact ⟨_, rfl, Or.inl h⟩
                 · exact ⟨_, rfl, Or.inr (Or.inr ⟨114, h⟩)⟩
               | upTest u p =>
@@ -171,7 +171,7 @@ theorem C13_spoof_rejected (cd : Codec) (dom : List Nat) (σ : Srv) (m : Msg) (i
                 dsimp only
                 unfold hPacket
                 simp only [hv, Res.bind_ok]
-                rcases errAns_cases cd m dom.length 99 1 (σ.sess sid).down 1 (vErrName .badIp) with h | h
+                rcases errAns_cases cd m dom.length 99 1 (downOf σ (some sid)) 1 (vErrName .badIp) with h | h
                 · exact ⟨_, rfl, Or.inl h⟩
                 · exact ⟨_, rfl, Or.inr (Or.inr ⟨99, h⟩)⟩
 
